@@ -83,6 +83,8 @@ pub mod sc {
         ensures covers(b, o0, o0, Seq::empty(), Seq::empty()) { reveal(covers); }
 
     // --- C15: the flattened parse result
+    /// a depfile target token: the ':' that ends it (if it does) is not part of the name
+    pub open spec fn strip_colon(b: Seq<u8>) -> Seq<u8> { if b.len() > 0 && b.last() == 58u8 { b.drop_last() } else { b } }
     pub open spec fn views(v: Seq<&str>) -> Seq<Seq<char>> { Seq::new(v.len(), |i: int| v[i]@) }
     pub open spec fn flat(res: Seq<(&str, Vec<&str>)>) -> Seq<Seq<char>>
         decreases res.len()
